@@ -381,9 +381,112 @@ def extra_obligations(mods, tier, seed):
                         "where": f"for all {n_shapes} accepted shapes of {label}{sig}: IR field for {pn} = what Python binds",
                         "time": dt / max(1, len(names)), "replay": {"failing_shapes": len(fails), "examples": fails[:4]},
                         "replay_confirmed": bool(fails), "shapes": n_shapes})
+    del LITVAR_JOBS[:]
+    out += spacing_and_literal_obligations(P)
+    out += litvar_obligations()
     _STATE["stats"] = stats
     _STATE["samples"] = samples
     _STATE["wall"] = round(time.time() - t_all, 2)
+    return out
+
+
+FLOAT_PROBE = {"speed": 0.625, "value": 0.625, "target_speed": 0.375, "pulse": 1062.5, "min_pulse_us": 612.5, "max_pulse_us": 2312.5}
+
+
+def spacing_and_literal_obligations(P):
+    """(a) optional blanks around `=` of a keyword argument never change the binding: for every callable the all-keyword call
+    written `k=v`, `k = v`, `k =v`, `k= v` yields the same IR; (b) a non-integer literal given for a float-typed parameter reaches
+    the IR unchanged (no truncation / re-scaling by the argument resolver) or the call is rejected."""
+    out = []
+    for cls, meth, sig, kind in host_callables():
+        if kind not in ("ctor", "stmt"):
+            continue
+        skip = HOST_ONLY_PARAMS.get((cls, meth), set())
+        params = [p for p in sig.parameters.values() if p.name not in skip]
+        decl = "" if kind == "ctor" else DEVICES[cls] + "\n"
+        base_src = PRELUDE + decl
+        base_nodes = len(P.parse(base_src).setup_body)
+        names = [p.name for p in params]
+        label = f"{cls}.{meth}"
+
+        def ir_of(arg_texts):
+            line = (f"dev = {cls}(" if kind == "ctor" else f"dev.{meth}(") + ", ".join(arg_texts) + ")"
+            try:
+                prog = P.parse(base_src + line + "\n")
+            except (ValueError, SyntaxError) as ex:
+                return line, ("rejected", str(ex)[:80])
+            new = (list(prog.setup_body) + list(prog.loop_body))[base_nodes:]
+            return line, ("ir", repr(new))
+        # ---- (a) spacing
+        t0 = time.time()
+        kwable = [p for p in params if p.kind != p.POSITIONAL_ONLY]
+        if cls == "LCD" and kind == "ctor":
+            kwable = [p for p in kwable if p.name in ("rs", "en", "d4", "d5", "d6", "d7", "cols", "rows")]
+        fails = []
+        if kwable:
+            vals = {p.name: probe(cls, meth, p.name, names.index(p.name))[0] for p in kwable}
+            for npos in sorted({0, min(1, len([p for p in params if p.kind == p.POSITIONAL_OR_KEYWORD]))}):
+                posn = [p.name for p in params if p.kind in (p.POSITIONAL_ONLY, p.POSITIONAL_OR_KEYWORD)][:npos]
+                kws = [p.name for p in kwable if p.name not in posn]
+                ref_line, ref = ir_of([vals.get(n, "1") for n in posn] + [f"{k}={vals[k]}" for k in kws])
+                for style in ("{k} = {v}", "{k} ={v}", "{k}= {v}"):
+                    line, got = ir_of([vals.get(n, "1") for n in posn] + [style.format(k=k, v=vals[k]) for k in kws])
+                    if got != ref and not (got[0] == "rejected" and ref[0] == "rejected"):
+                        fails.append({"call": line, "reference": ref_line, "got": got[1][:200], "expected": ref[1][:200]})
+            out.append({"name": f"C08/{label}/keyword-spacing", "status": "discharged" if not fails else "sat", "backend": "enum",
+                        "where": f"{label}: blanks around `=` of keyword arguments do not change the IR", "time": round(time.time() - t0, 3),
+                        "replay": {"examples": fails[:3]}, "replay_confirmed": bool(fails)})
+        # ---- (b) a literal argument behaves like the same value routed through a variable (executed on the firmware mock)
+        for p in params:
+            ann = str(p.annotation)
+            if "float" not in ann or p.kind == p.POSITIONAL_ONLY or kind != "stmt":
+                continue
+            lit = FLOAT_PROBE.get(p.name, 62.5)
+            others = [q for q in params if q is not p and q.default is inspect._empty]
+            args = []
+            for q in others:
+                v = LITERAL_PROBES.get((cls, meth, q.name), (None,))[0] or str(HOST_VALUES.get(q.name, 3 + names.index(q.name)) if not isinstance(HOST_VALUES.get(q.name), str) else repr(HOST_VALUES[q.name]))
+                args.append(f"{q.name}={v}" if q.kind != q.POSITIONAL_ONLY else v)
+            call_lit = f"dev.{meth}(" + ", ".join(args + [f"{p.name}={lit}"]) + ")"
+            call_var = f"dev.{meth}(" + ", ".join(args + [f"{p.name}=zzv"]) + ")"
+            LITVAR_JOBS.append((f"{label}/{p.name}", base_src + call_lit + "\n", base_src + f"zzv = {lit}\n" + call_var + "\n"))
+    return out
+
+
+LITVAR_JOBS = []
+
+
+def _litvar_one(job):
+    name, a, b = job
+    from progs.diff import transpile
+    from fwsim.run import run_sketch
+    res = []
+    for src in (a, b):
+        cpp, err = transpile(src)
+        if cpp is None:
+            return name, "rejected", err, a, b
+        r = run_sketch(cpp, passes=1)
+        if not r.get("compiled"):
+            return name, "does-not-compile", r.get("errors", "")[-300:], a, b
+        res.append([e for e in r["events"] if not e.startswith("S:")])
+    if res[0] != res[1]:
+        k = next((i for i, (x, y) in enumerate(zip(res[0], res[1])) if x != y), min(len(res[0]), len(res[1])))
+        return name, "differs", {"index": k, "literal": res[0][max(0, k - 2):k + 3], "variable": res[1][max(0, k - 2):k + 3]}, a, b
+    return name, "same", None, a, b
+
+
+def litvar_obligations():
+    import multiprocessing as mp
+    t0 = time.time()
+    with mp.Pool(16) as pool:
+        res = pool.map(_litvar_one, LITVAR_JOBS, chunksize=1)
+    per = round((time.time() - t0) / max(1, len(res)), 3)
+    out = []
+    for name, verdict, detail, a, b in res:
+        ok = verdict in ("same", "rejected")
+        out.append({"name": f"C08/{name}/literal-behaves-like-variable", "status": "discharged" if ok else "sat", "backend": "enum+fwsim",
+                    "where": f"{name}: a non-integer literal and the same value in a variable produce the same firmware event trace [{verdict}]", "time": per,
+                    "replay": {"literal_script": a[-200:], "variable_script": b[-200:], "detail": detail}, "replay_confirmed": not ok})
     return out
 
 
